@@ -277,7 +277,8 @@ async fn main(plan: Plan) -> Outcome {
                         .find(|c| !c.srv_closed && !c.client_closed && !c.cql.registered.is_empty())
                         .map(|c| c.node);
                     if let Some(n) = cc_node {
-                        let until = w.now() + (5 + (pick as u64 % 8) * 5) * SEC;
+                        // 5..40 s, or (1 in 4) for the rest of the run.
+                        let until = if pick % 4 == 1 { u64::MAX } else { w.now() + (5 + (pick as u64 % 8) * 5) * SEC };
                         w.cluster.nodes[n].system_queries_fail_until = until;
                         w.fault(Fault::SrvError);
                         w.log(&format!("system_queries_fail node={n}"));
